@@ -1,6 +1,8 @@
 """C20 — synthetic datasets hit their specified operating points and proportions (DESIGN §4 C20)."""
 from __future__ import annotations
 
+import ast
+
 from ..evalr import Obj
 from ..spec import SCORES, returns, raises, unmodelled_text, pc_text
 from ..terms import (App, Const, Num, Sym, Tup, Vec, same, show, sub, add, mul, div, neg, subst, atoms_of, to_poly, cmp0, disj, negate, is_const, const_of)
@@ -24,9 +26,39 @@ def normal_obj(ctx, extra=None):
     return o
 
 
+_TAIL = {}
+
+
 def all_values(ctx, chk, thunk):
     outs = ctx.explore(thunk, chk)
+    bucket = _TAIL.setdefault(id(chk), {"n": 0, "events": []})
+    bucket["n"] += len(outs)
+    bucket["events"] += [e for o in outs for e in o.events if e["kind"] == "tail_cancellation"]
     return returns(outs), raises(outs), outs
+
+
+def tail_accuracy(ctx, chk):
+    """R20.8 the rates of the property range over all of (0, 1), small tail rates included: an upper-tail quantity is computed through
+    the survival function (sf / isf), never by forming 1 - q or 1 - cdf(x) in floating point first (a rate below 1.1e-16 vanishes in 1 - q,
+    1e-12 keeps four digits, and the inverse pair / the requested operating point are then missed by that much)."""
+    bucket = _TAIL.get(id(chk), {"n": 0, "events": []})
+    seen = set()
+    for e in bucket["events"]:
+        node = e.get("node")
+        home = next((f for f in ctx.db.all_functions() if node is not None and any(n is node for n in ast.walk(f.node))), None)
+        if home is None or not home.qualname.startswith("score_analysis.experimental.datasets."):
+            continue
+        key = (home.qualname, e["op"], getattr(node, "lineno", 0))
+        if key in seen:
+            continue
+        seen.add(key)
+        chk.violation("R20.8", home.qualname, "tail:%s:%s" % (home.qualname.split(".")[-1], e["op"]), "%s forms the complement in floating point (%s)" % (e["text"][:80], e["op"]),
+                      "the upper tail through scipy.stats.norm.sf / isf (accurate for every rate in (0, 1))", "%s:%d" % (home.module.relpath, getattr(node, "lineno", 0)))
+    if not seen:
+        if bucket["n"] < 10:
+            chk.unknown("R20.8", "only %d paths of the dataset methods explored" % bucket["n"])
+        else:
+            chk.hold("R20.8", "tails", "no 1 - q / 1 - cdf(x) feeds a normal quantile or rate on %d explored paths" % bucket["n"], nontrivial=False)
 
 
 def run(ctx, chk, tier):
@@ -237,6 +269,7 @@ def run(ctx, chk, tier):
     chk.floor("R20.5", 7, "joint table, marginals, validity x 2 + counts")
 
     size_precedence(ctx, chk)
+    tail_accuracy(ctx, chk)
 
 
 def ones_count(v, n):
